@@ -84,14 +84,6 @@ theorem parseTtl_fails (f rest : List UInt8) (hf : ∀ c ∈ f, plainOctet c = t
 
 /-! ### TTL and class, written or omitted -/
 
-def ttlText (sep : List UInt8) : Option Nat → List UInt8
-  | some t => decimal t ++ sep
-  | none => []
-
-def clsText (sep : List UInt8) : Option Nat → List UInt8
-  | some k => renderClass k ++ sep
-  | none => []
-
 /-- the TTL value: the written one (RFC 2181 clamp), else `default_or_previous_ttl` -/
 def ttlChoice (ctx : Ctx) : Option Nat → Option Nat
   | some t => some (ttlFrom t)
@@ -121,10 +113,10 @@ theorem skip_nil (k : Kind) (c : UInt8) (r : List UInt8) (hc : fieldStart c) (li
 /-- **TTL and class fields**: written or omitted (TTL first when both are written), followed by
     the type field: the values are the written ones, or the context's defaults -/
 theorem ttlClass_eval (ctx : Ctx) (sep : List UInt8) (hne : sep ≠ []) (hsep : ∀ x ∈ sep, isWs x = true)
-    (ttl cls : Option Nat) (ht : ∀ t, ttl = some t → t ≤ 4294967295) (hk : ∀ k, cls = some k → k ≤ 65535)
+    (ttl cls : Option Nat) (cf : Bool) (ht : ∀ t, ttl = some t → t ≤ 4294967295) (hk : ∀ k, cls = some k → k ≤ 65535)
     (ty : Nat) (hty : ty ≤ 65535) (R : List UInt8) (hR : atFieldEnd R = true) (tv cv : Nat)
     (htv : ttlChoice ctx ttl = some tv) (hcv : clsChoice ctx cls = some cv) (line : Nat) :
-    ∃ st1, parseTtlAndClass ctx ⟨ttlText sep ttl ++ clsText sep cls ++ (renderType ty ++ R), line, false⟩ =
+    ∃ st1, parseTtlAndClass ctx ⟨ttlClassText sep ttl cls cf ++ (renderType ty ++ R), line, false⟩ =
         .ok ((tv, cv), st1) ∧
       skipToNextField .ExpectedType st1 = .ok ((), ⟨renderType ty ++ R, line, false⟩) := by
   have hTend : atFieldEnd (sep ++ (renderType ty ++ R)) = true := atFieldEnd_sep sep _ hne hsep
@@ -143,22 +135,40 @@ theorem ttlClass_eval (ctx : Ctx) (sep : List UInt8) (hne : sep ≠ []) (hsep : 
       subst hcv
       refine ⟨⟨sep ++ (renderType ty ++ R), line, false⟩, ?_, skipToNextField_gap _ sep hsep 84 _ (.inr (by decide)) line false⟩
       unfold parseTtlAndClass
-      have e : ttlText sep (some t) ++ clsText sep (some k) ++ (renderType ty ++ R) =
-          decimal t ++ (sep ++ (renderClass k ++ (sep ++ (renderType ty ++ R)))) := by simp [ttlText, clsText]
-      rw [e]
-      simp only [bind, P.bind, tryP_ok (parseTtl_decimal t ht' _ (atFieldEnd_sep sep _ hne hsep) line false)]
-      have := skipToNextField_gap .ExpectedClassOrType sep hsep 67
-        ([76, 65, 83, 83] ++ decimal k ++ (sep ++ (renderType ty ++ R))) (.inr (by decide)) line false
-      simp only [renderClass, List.cons_append, List.nil_append, List.append_assoc] at this ⊢
-      simp only [this]
-      have hc := tryP_ok (parseClassField_render k hk' (sep ++ (renderType ty ++ R)) hTend line false)
-      simp only [renderClass, List.cons_append, List.nil_append, List.append_assoc] at hc
-      simp only [hc, pure, P.pure]
+      cases cf with
+      | false =>
+        have e : ttlClassText sep (some t) (some k) false ++ (renderType ty ++ R) =
+            decimal t ++ (sep ++ (renderClass k ++ (sep ++ (renderType ty ++ R)))) := by simp [ttlClassText]
+        rw [e]
+        simp only [bind, P.bind, tryP_ok (parseTtl_decimal t ht' _ (atFieldEnd_sep sep _ hne hsep) line false)]
+        have := skipToNextField_gap .ExpectedClassOrType sep hsep 67
+          ([76, 65, 83, 83] ++ decimal k ++ (sep ++ (renderType ty ++ R))) (.inr (by decide)) line false
+        simp only [renderClass, List.cons_append, List.nil_append, List.append_assoc] at this ⊢
+        simp only [this]
+        have hc := tryP_ok (parseClassField_render k hk' (sep ++ (renderType ty ++ R)) hTend line false)
+        simp only [renderClass, List.cons_append, List.nil_append, List.append_assoc] at hc
+        simp only [hc, pure, P.pure]
+      | true =>
+        -- class first: the TTL attempt fails on `CLASSnnn`, the class is read, then the TTL
+        obtain ⟨d, ds, hd, hdstart⟩ := decimal_head t
+        have e : ttlClassText sep (some t) (some k) true ++ (renderType ty ++ R) =
+            renderClass k ++ (sep ++ (decimal t ++ (sep ++ (renderType ty ++ R)))) := by simp [ttlClassText]
+        rw [e]
+        have hEnd2 : atFieldEnd (sep ++ (decimal t ++ (sep ++ (renderType ty ++ R)))) = true :=
+          atFieldEnd_sep sep _ hne hsep
+        have h1 := parseTtl_fails (renderClass k) _ (renderClass_plain k) (renderClass_length k hk') hEnd2
+          (renderClass_not_u32 k) line false
+        simp only [bind, P.bind, h1, tryP_ok (parseClassField_render k hk' _ hEnd2 line false)]
+        have hsk := skipToNextField_gap .ExpectedTtlOrType sep hsep d (ds ++ (sep ++ (renderType ty ++ R))) hdstart line false
+        have hok := tryP_ok (parseTtl_decimal t ht' (sep ++ (renderType ty ++ R)) hTend line false)
+        rw [hd] at hok ⊢
+        simp only [List.cons_append, List.append_assoc] at hsk hok ⊢
+        simp only [hsk, hok, pure, P.pure]
     | none =>
       refine ⟨⟨renderType ty ++ R, line, false⟩, ?_, skip_nil _ 84 _ (.inr (by decide)) line false⟩
       unfold parseTtlAndClass
-      have e : ttlText sep (some t) ++ clsText sep none ++ (renderType ty ++ R) =
-          decimal t ++ (sep ++ (renderType ty ++ R)) := by simp [ttlText, clsText]
+      have e : ttlClassText sep (some t) none cf ++ (renderType ty ++ R) =
+          decimal t ++ (sep ++ (renderType ty ++ R)) := by cases cf <;> simp [ttlClassText]
       rw [e]
       simp only [bind, P.bind, tryP_ok (parseTtl_decimal t ht' _ hTend line false)]
       have := skipToNextField_gap .ExpectedClassOrType sep hsep 84 ([89, 80, 69] ++ decimal ty ++ R)
@@ -176,8 +186,8 @@ theorem ttlClass_eval (ctx : Ctx) (sep : List UInt8) (hne : sep ≠ []) (hsep : 
       subst hcv
       refine ⟨⟨renderType ty ++ R, line, false⟩, ?_, skip_nil _ 84 _ (.inr (by decide)) line false⟩
       unfold parseTtlAndClass
-      have e : ttlText sep none ++ clsText sep (some k) ++ (renderType ty ++ R) =
-          renderClass k ++ (sep ++ (renderType ty ++ R)) := by simp [ttlText, clsText]
+      have e : ttlClassText sep none (some k) cf ++ (renderType ty ++ R) =
+          renderClass k ++ (sep ++ (renderType ty ++ R)) := by cases cf <;> simp [ttlClassText]
       rw [e]
       have h1 := parseTtl_fails (renderClass k) (sep ++ (renderType ty ++ R)) (renderClass_plain k)
         (renderClass_length k hk') hTend (renderClass_not_u32 k) line false
@@ -190,8 +200,8 @@ theorem ttlClass_eval (ctx : Ctx) (sep : List UInt8) (hne : sep ≠ []) (hsep : 
       simp only [clsChoice] at hcv
       refine ⟨⟨renderType ty ++ R, line, false⟩, ?_, skip_nil _ 84 _ (.inr (by decide)) line false⟩
       unfold parseTtlAndClass
-      have e : ttlText sep none ++ clsText sep none ++ (renderType ty ++ R) = renderType ty ++ R := by
-        simp [ttlText, clsText]
+      have e : ttlClassText sep none none cf ++ (renderType ty ++ R) = renderType ty ++ R := by
+        cases cf <;> simp [ttlClassText]
       rw [e]
       simp only [bind, P.bind, hTfail, hCfail, htv, hcv, pure, P.pure]
 
@@ -212,27 +222,49 @@ theorem parseTypeField_render (ty : Nat) (hty : ty ≤ 65535) (h10 : ty ≠ 10) 
   simp [this, pure, P.pure]
 
 /-- everything of a record after the owner field and the blanks that follow it -/
-def recordBody (sep : List UInt8) (ttl cls : Option Nat) (ty : Nat) (rd tail : List UInt8) : List UInt8 :=
-  ttlText sep ttl ++ clsText sep cls ++
+def recordBody (sep : List UInt8) (ttl cls : Option Nat) (cf : Bool) (ty : Nat) (rd tail : List UInt8) : List UInt8 :=
+  ttlClassText sep ttl cls cf ++
     (renderType ty ++ (sep ++ 92 :: 35 :: (genericTail sep rd ++ tail)))
 
-theorem recordBody_head (sep : List UInt8) (ttl cls : Option Nat) (ty : Nat) (rd tail : List UInt8) :
-    ∃ c t, recordBody sep ttl cls ty rd tail = c :: t ∧ fieldStart c ∧ c ≠ 36 := by
+theorem recordBody_head (sep : List UInt8) (ttl cls : Option Nat) (cf : Bool) (ty : Nat) (rd tail : List UInt8) :
+    ∃ c t, recordBody sep ttl cls cf ty rd tail = c :: t ∧ fieldStart c ∧ c ≠ 36 := by
   unfold recordBody
-  cases ttl with
-  | some t =>
+  have hdig : ∀ (t : Nat) (b : List UInt8), ∃ d x, decimal t ++ b = d :: x ∧ fieldStart d ∧ d ≠ 36 := by
+    intro t b
     obtain ⟨d, ds, hd, hs⟩ := decimal_head t
-    refine ⟨d, _, by simp [ttlText, hd]; rfl, hs, ?_⟩
+    refine ⟨d, ds ++ b, by rw [hd]; rfl, hs, ?_⟩
     have := decimal_digits t d (by rw [hd]; simp)
     intro h; subst h; simp [isDigit] at this
+  have hC : ∀ (k : Nat) (b : List UInt8), ∃ x, renderClass k ++ b = 67 :: x := fun k b => ⟨_, rfl⟩
+  have hT : ∀ (b : List UInt8), ∃ x, renderType ty ++ b = 84 :: x := fun b => ⟨_, rfl⟩
+  have f67 : fieldStart 67 ∧ (67 : UInt8) ≠ 36 := ⟨.inr (by decide), by decide⟩
+  have f84 : fieldStart 84 ∧ (84 : UInt8) ≠ 36 := ⟨.inr (by decide), by decide⟩
+  cases ttl with
+  | some t =>
+    cases cls with
+    | some k =>
+      cases cf with
+      | false =>
+        obtain ⟨d, x, hx, hs, h36⟩ := hdig t (sep ++ (renderClass k ++ sep) ++ (renderType ty ++ (sep ++ 92 :: 35 :: (genericTail sep rd ++ tail))))
+        exact ⟨d, x, by rw [← hx]; simp [ttlClassText], hs, h36⟩
+      | true =>
+        obtain ⟨x, hx⟩ := hC k (sep ++ (decimal t ++ sep) ++ (renderType ty ++ (sep ++ 92 :: 35 :: (genericTail sep rd ++ tail))))
+        exact ⟨67, x, by rw [← hx]; simp [ttlClassText], f67.1, f67.2⟩
+    | none =>
+      obtain ⟨d, x, hx, hs, h36⟩ := hdig t (sep ++ (renderType ty ++ (sep ++ 92 :: 35 :: (genericTail sep rd ++ tail))))
+      exact ⟨d, x, by rw [← hx]; cases cf <;> simp [ttlClassText], hs, h36⟩
   | none =>
     cases cls with
-    | some k => exact ⟨67, _, by simp [ttlText, clsText, renderClass]; rfl, .inr (by decide), by decide⟩
-    | none => exact ⟨84, _, by simp [ttlText, clsText, renderType]; rfl, .inr (by decide), by decide⟩
+    | some k =>
+      obtain ⟨x, hx⟩ := hC k (sep ++ (renderType ty ++ (sep ++ 92 :: 35 :: (genericTail sep rd ++ tail))))
+      exact ⟨67, x, by rw [← hx]; cases cf <;> simp [ttlClassText], f67.1, f67.2⟩
+    | none =>
+      obtain ⟨x, hx⟩ := hT (sep ++ 92 :: 35 :: (genericTail sep rd ++ tail))
+      exact ⟨84, x, by rw [← hx]; cases cf <;> simp [ttlClassText], f84.1, f84.2⟩
 
 /-- the record parser from the TTL/class/type fields on: values, RDATA, and the new context -/
 theorem recordTail_eval (ctx : Ctx) (owner : List UInt8) (startLine : Nat) (sep : List UInt8) (hne : sep ≠ [])
-    (hsep : ∀ x ∈ sep, isWs x = true) (ttl cls : Option Nat) (ht : ∀ t, ttl = some t → t ≤ 4294967295)
+    (hsep : ∀ x ∈ sep, isWs x = true) (ttl cls : Option Nat) (cf : Bool) (ht : ∀ t, ttl = some t → t ≤ 4294967295)
     (hk : ∀ k, cls = some k → k ≤ 65535) (ty : Nat) (hty : ty ≤ 65535) (h10 : ty ≠ 10) (h41 : ty ≠ 41)
     (h250 : ty ≠ 250) (rd : List UInt8) (hlen : rd.length ≤ 65535) (tv cv : Nat)
     (htv : ttlChoice ctx ttl = some tv) (hcv : clsChoice ctx cls = some cv)
@@ -249,16 +281,16 @@ theorem recordTail_eval (ctx : Ctx) (owner : List UInt8) (startLine : Nat) (sep 
           pure
               (some (Item.record startLine { owner := owner, ttl := ttl, cls := cls, ty := ty, rdata := rdata }),
                 { ctx with prevOwner := some owner, prevTtl := some ttl, prevClass := some cls }) : P (Option Item × Ctx))
-      ⟨recordBody sep ttl cls ty rd (ws ++ (cmt ++ 10 :: r)), line, false⟩ =
+      ⟨recordBody sep ttl cls cf ty rd (ws ++ (cmt ++ 10 :: r)), line, false⟩ =
     .ok ((some (.record startLine ⟨owner, tv, cv, ty, rd⟩),
           { ctx with prevOwner := some owner, prevTtl := some tv, prevClass := some cv }),
          ⟨r, line + 1, false⟩) := by
-  obtain ⟨c, t, hbody, hstart, _⟩ := recordBody_head sep ttl cls ty rd (ws ++ (cmt ++ 10 :: r))
+  obtain ⟨c, t, hbody, hstart, _⟩ := recordBody_head sep ttl cls cf ty rd (ws ++ (cmt ++ 10 :: r))
   have hR : atFieldEnd (sep ++ 92 :: 35 :: (genericTail sep rd ++ (ws ++ (cmt ++ 10 :: r)))) = true :=
     atFieldEnd_sep sep _ hne hsep
-  obtain ⟨st1, h1, h2⟩ := ttlClass_eval ctx sep hne hsep ttl cls ht hk ty hty _ hR tv cv htv hcv line
-  have hskip0 : skipToNextField .ExpectedTtlClassOrType ⟨recordBody sep ttl cls ty rd (ws ++ (cmt ++ 10 :: r)), line, false⟩ =
-      .ok ((), ⟨recordBody sep ttl cls ty rd (ws ++ (cmt ++ 10 :: r)), line, false⟩) := by
+  obtain ⟨st1, h1, h2⟩ := ttlClass_eval ctx sep hne hsep ttl cls cf ht hk ty hty _ hR tv cv htv hcv line
+  have hskip0 : skipToNextField .ExpectedTtlClassOrType ⟨recordBody sep ttl cls cf ty rd (ws ++ (cmt ++ 10 :: r)), line, false⟩ =
+      .ok ((), ⟨recordBody sep ttl cls cf ty rd (ws ++ (cmt ++ 10 :: r)), line, false⟩) := by
     rw [hbody]; exact skip_nil _ c t hstart line false
   simp only [bind, P.bind, hskip0]
   unfold recordBody
@@ -307,9 +339,9 @@ theorem dropWhile_ws (sep : List UInt8) (hsep : ∀ x ∈ sep, isWs x = true) (c
 theorem renderRecord_eq (p : PRecord) (r : List UInt8) :
     renderRecord p ++ r =
       ownerText p.owner ++
-        (p.sep ++ recordBody p.sep p.ttl p.cls p.ty p.rdata (p.trail ++ (p.comment ++ 10 :: r))) := by
-  unfold renderRecord recordBody ttlText clsText
-  cases p.ttl <;> cases p.cls <;> simp
+        (p.sep ++ recordBody p.sep p.ttl p.cls p.clsFirst p.ty p.rdata (p.trail ++ (p.comment ++ 10 :: r))) := by
+  unfold renderRecord recordBody
+  simp
 
 theorem nameNewlines_eq (ls : List PLabel) : nameNewlines ls = labelLines ls := rfl
 
@@ -333,19 +365,19 @@ theorem parseLine_named (ctx : Ctx) (T : List UInt8) (c0 : UInt8) (t0 : List UIn
     (hc0 : fieldStart c0) (h36 : (c0 == 36) = false) (w : List UInt8) (k line : Nat)
     (hparse : ∀ rest, atFieldEnd rest = true →
       parseName ctx.origin ⟨T ++ rest, line, false⟩ = .ok (w, ⟨rest, line + k, false⟩))
-    (sep : List UInt8) (hne : sep ≠ []) (hsep : ∀ x ∈ sep, isWs x = true) (ttl cls : Option Nat)
+    (sep : List UInt8) (hne : sep ≠ []) (hsep : ∀ x ∈ sep, isWs x = true) (ttl cls : Option Nat) (cf : Bool)
     (ht : ∀ t, ttl = some t → t ≤ 4294967295) (hk : ∀ k, cls = some k → k ≤ 65535) (ty : Nat)
     (hty : ty ≤ 65535) (h10 : ty ≠ 10) (h41 : ty ≠ 41) (h250 : ty ≠ 250) (rd : List UInt8)
     (hlen : rd.length ≤ 65535) (tv cv : Nat) (htv : ttlChoice ctx ttl = some tv)
     (hcv : clsChoice ctx cls = some cv) (hvalid : validate cv ty rd = .ok ())
     (ws cmt r : List UInt8) (hws : ∀ x ∈ ws, isWs x = true) (hc : commentOK cmt) :
-    parseLine ctx ⟨T ++ (sep ++ recordBody sep ttl cls ty rd (ws ++ (cmt ++ 10 :: r))), line, false⟩ =
+    parseLine ctx ⟨T ++ (sep ++ recordBody sep ttl cls cf ty rd (ws ++ (cmt ++ 10 :: r))), line, false⟩ =
       .ok ((some (.record line ⟨w, tv, cv, ty, rd⟩),
             { ctx with prevOwner := some w, prevTtl := some tv, prevClass := some cv }),
            ⟨r, line + k + 1, false⟩) := by
-  obtain ⟨c, t, hbody, hstart, _⟩ := recordBody_head sep ttl cls ty rd (ws ++ (cmt ++ 10 :: r))
+  obtain ⟨c, t, hbody, hstart, _⟩ := recordBody_head sep ttl cls cf ty rd (ws ++ (cmt ++ 10 :: r))
   have hc0ws : isWs c0 = false := fieldStart_not_ws hc0
-  have hname := hparse (sep ++ recordBody sep ttl cls ty rd (ws ++ (cmt ++ 10 :: r))) (atFieldEnd_sep sep _ hne hsep)
+  have hname := hparse (sep ++ recordBody sep ttl cls cf ty rd (ws ++ (cmt ++ 10 :: r))) (atFieldEnd_sep sep _ hne hsep)
   subst hT
   unfold parseLine
   simp only [List.cons_append, h36, Bool.false_eq_true, ↓reduceIte]
@@ -362,7 +394,7 @@ theorem parseLine_named (ctx : Ctx) (T : List UInt8) (c0 : UInt8) (t0 : List UIn
   simp only [List.cons_append] at hname
   simp only [hname]
   have hskip := skipToNextField_gap .ExpectedTtlClassOrType sep hsep c t hstart (line + k) false
-  have htail := recordTail_eval ctx w line sep hne hsep ttl cls ht hk ty hty h10 h41 h250 rd hlen tv cv htv hcv
+  have htail := recordTail_eval ctx w line sep hne hsep ttl cls cf ht hk ty hty h10 h41 h250 rd hlen tv cv htv hcv
     hvalid ws cmt r hws hc (line + k)
   rw [hbody] at htail ⊢
   simp only [bind, P.bind, skip_nil _ c t hstart] at htail
@@ -408,7 +440,7 @@ theorem parseLine_record (ctx : Ctx) (hctx : CtxWF ctx) (p : PRecord) (hwf : WFR
     | some k => simpa [hp] using hcv
     | none => simpa [hp, toSCtx] using hcv
   unfold ownerOf at howner
-  obtain ⟨c, t, hbody, hstart, hc36⟩ := recordBody_head p.sep p.ttl p.cls p.ty p.rdata (p.trail ++ (p.comment ++ 10 :: r))
+  obtain ⟨c, t, hbody, hstart, hc36⟩ := recordBody_head p.sep p.ttl p.cls p.clsFirst p.ty p.rdata (p.trail ++ (p.comment ++ 10 :: r))
   have hcws := fieldStart_not_ws hstart
   rw [renderRecord_eq]
   cases hp : p.owner with
@@ -425,16 +457,16 @@ theorem parseLine_record (ctx : Ctx) (hctx : CtxWF ctx) (p : PRecord) (hwf : WFR
       simp only [isWs, Bool.or_eq_true, beq_iff_eq] at hx
       rcases hx with rfl | rfl <;> decide
     refine ⟨{ ctx with prevOwner := some owner, prevTtl := some tv, prevClass := some cv }, ?_, by simp [toSCtx]⟩
-    have esep : p.sep ++ recordBody p.sep p.ttl p.cls p.ty p.rdata (p.trail ++ (p.comment ++ 10 :: r)) =
-        x :: (sep' ++ recordBody p.sep p.ttl p.cls p.ty p.rdata (p.trail ++ (p.comment ++ 10 :: r))) := by
+    have esep : p.sep ++ recordBody p.sep p.ttl p.cls p.clsFirst p.ty p.rdata (p.trail ++ (p.comment ++ 10 :: r)) =
+        x :: (sep' ++ recordBody p.sep p.ttl p.cls p.clsFirst p.ty p.rdata (p.trail ++ (p.comment ++ 10 :: r))) := by
       conv => lhs; arg 1; rw [hsep']
       rfl
     rw [esep]
     unfold parseLine
     simp only [hx36, Bool.false_eq_true, ↓reduceIte]
     rw [parseRecordOrEmpty_eq]
-    have hskipws : skipWhitespace ⟨x :: (sep' ++ recordBody p.sep p.ttl p.cls p.ty p.rdata (p.trail ++ (p.comment ++ 10 :: r))), line, false⟩ =
-        (true, ⟨recordBody p.sep p.ttl p.cls p.ty p.rdata (p.trail ++ (p.comment ++ 10 :: r)), line, false⟩) := by
+    have hskipws : skipWhitespace ⟨x :: (sep' ++ recordBody p.sep p.ttl p.cls p.clsFirst p.ty p.rdata (p.trail ++ (p.comment ++ 10 :: r))), line, false⟩ =
+        (true, ⟨recordBody p.sep p.ttl p.cls p.clsFirst p.ty p.rdata (p.trail ++ (p.comment ++ 10 :: r)), line, false⟩) := by
       unfold skipWhitespace
       simp only [hx]
       have := dropWhile_ws p.sep hsep c t hcws
@@ -447,7 +479,7 @@ theorem parseLine_record (ctx : Ctx) (hctx : CtxWF ctx) (p : PRecord) (hwf : WFR
     unfold parseRecordRest
     simp only [↓reduceIte, howner, bind, P.bind, pure, P.pure]
     rw [← hbody]
-    exact recordTail_eval ctx owner line p.sep hne hsep p.ttl p.cls httl hcls p.ty hty h10 h41 h250 p.rdata hrd tv cv
+    exact recordTail_eval ctx owner line p.sep hne hsep p.ttl p.cls p.clsFirst httl hcls p.ty hty h10 h41 h250 p.rdata hrd tv cv
       htv' hcv' hvalid p.trail p.comment r htrail hcmt line
   | abs ls =>
     simp only [hp, Option.some.injEq] at howner
@@ -468,7 +500,7 @@ theorem parseLine_record (ctx : Ctx) (hctx : CtxWF ctx) (p : PRecord) (hwf : WFR
       (fun rest hrest => by
         have := parseName_abs ctx.origin (l :: ls') lne lforms llabels ltotal rest hrest line false
         rw [nameNewlines_eq] at this; exact this)
-      p.sep hne hsep p.ttl p.cls httl hcls p.ty hty h10 h41 h250 p.rdata hrd tv cv htv' hcv' hvalid
+      p.sep hne hsep p.ttl p.cls p.clsFirst httl hcls p.ty hty h10 h41 h250 p.rdata hrd tv cv htv' hcv' hvalid
       p.trail p.comment r htrail hcmt, by simp [toSCtx]⟩
   | rel ls l =>
     simp only [hp, toSCtx] at howner
@@ -492,7 +524,7 @@ theorem parseLine_record (ctx : Ctx) (hctx : CtxWF ctx) (p : PRecord) (hwf : WFR
               hrest line false
             rw [nameNewlines_eq] at this
             rw [ho, wireLabels_eq]; exact this)
-          p.sep hne hsep p.ttl p.cls httl hcls p.ty hty h10 h41 h250 p.rdata hrd tv cv htv' hcv' hvalid
+          p.sep hne hsep p.ttl p.cls p.clsFirst httl hcls p.ty hty h10 h41 h250 p.rdata hrd tv cv htv' hcv' hvalid
           p.trail p.comment r htrail hcmt, by simp [toSCtx]⟩
       · cases howner
   | atSign =>
@@ -501,7 +533,7 @@ theorem parseLine_record (ctx : Ctx) (hctx : CtxWF ctx) (p : PRecord) (hwf : WFR
       (fun rest hrest => by
         rw [howner]
         exact parseName_at owner rest hrest line false)
-      p.sep hne hsep p.ttl p.cls httl hcls p.ty hty h10 h41 h250 p.rdata hrd tv cv htv' hcv' hvalid
+      p.sep hne hsep p.ttl p.cls p.clsFirst httl hcls p.ty hty h10 h41 h250 p.rdata hrd tv cv htv' hcv' hvalid
       p.trail p.comment r htrail hcmt, by simp [toSCtx]⟩
 
 /-! ### blank lines and directives -/
